@@ -154,6 +154,10 @@ def drive(task):
     if task["kind"] == "comma_pairs":
         yield from comma_pairs(task)
         return
+    if task["kind"] == "dfaops_replay":
+        from .. import dfaops_replay
+        yield from dfaops_replay.drive_file(task["path"], task["lo"], task["hi"], task.get("stride", 1))
+        return
     what = task.get("what", "both")
     prev = None
     for src in gen.dfa_srcs(task):
@@ -172,6 +176,10 @@ def drive(task):
 
 def redrive(src):
     import gambatools.language_algorithms as la
+    if src["kind"] == "dfaops_line":
+        from .. import dfaops_replay
+        yield from dfaops_replay.replay_line(src["line"])
+        return
     if src["kind"] == "comma_pair":
         for e in comma_pairs({"seed": src["seed"], "count": src["index"] + 1}):
             if e["src"]["index"] == src["index"]:
@@ -202,23 +210,45 @@ def redrive(src):
         yield from unary_events(D, src)
 
 
-MODELS = {"quick": [("Lemmas", "LemmasOps_q.cfg", "reference operations vs word-level definitions on DFA(2,{a,b}) pairs")],
+_DO = {"allow_untaken": True}
+MODELS = {"quick": [("Lemmas", "LemmasOps_q.cfg", "reference operations vs word-level definitions on DFA(2,{a,b}) pairs"),
+                    ("DfaOps", "DfaOpsM_unary_q.cfg", "the six unary constructions as the code builds them, on every DFA over "
+                     "the states {q1,trap1} (names the fresh-name search has to avoid) x {a,b}", _DO),
+                    ("DfaOps", "DfaOpsM_binary_q.cfg", "the three products on every pair of 2-state DFAs over {a}", _DO),
+                    ("DfaOps", "DfaOpsM_partial_q.cfg", "totalisation of every partial DFA on 2 states", _DO)],
           "thorough": [("Lemmas", "LemmasOps_q.cfg", "reference operations vs word-level definitions, DFA(2,{a,b})"),
-                       ("Lemmas", "LemmasOps_t.cfg", "reference unary operations vs word-level definitions, DFA(3,{a,b})")]}
+                       ("Lemmas", "LemmasOps_t.cfg", "reference unary operations vs word-level definitions, DFA(3,{a,b})"),
+                       ("DfaOps", "DfaOpsM_unary_q.cfg", "unary constructions, states {q1,trap1}", _DO),
+                       ("DfaOps", "DfaOpsM_unary_t.cfg", "unary constructions on every DFA over {s0,q1,q2} x {a,b}", _DO),
+                       ("DfaOps", "DfaOpsM_binary_t.cfg", "products on every pair of DFA(2,{a,b})", _DO),
+                       ("DfaOps", "DfaOpsM_partial_q.cfg", "totalisation of every partial DFA on 2 states", _DO)]}
 RULE = ("unary constructions on DFA(3,{a,b}) (strided in quick), binary products on all pairs of DFA(2,{a,b}), random "
-        "DFAs with 1-6 states / 1-3 symbols and partial variants for totalisation; finite-language helpers on all 128 "
+        "DFAs with 1-6 states / 1-3 symbols and partial variants for totalisation, DFAs with 10-13 numbered states, "
+        "operand pairs with commas in state names; every (input, operation, result) of the DfaOps.tla model replayed "
+        "into the real constructions and compared structurally; finite-language helpers on all 128 "
         "languages over words of length <= 2 and sampled pairs; non-trivial = result differs from first operand; "
         "distinct = distinct (operation, operands)")
 
 
 def nontrivial(e):
+    if e["op"] == "sched_replay":
+        return True
     if e["op"] == "lang_op":
         return e["res"] != e["l1"]
     return e.get("res") != e["a"]
 
 
 def check(tier, seed):
-    return base.standard_check(PID, tier, seed, tasks(tier, seed), MODELS[tier], RULE, nontrivial, matchers=MATCHERS,
+    from .. import dfaops_replay
+    info = {}
+    cfgs = (["DfaOps_unary_q.cfg", "DfaOps_binary_q.cfg", "DfaOps_partial_q.cfg"] if tier == "quick" else
+            ["DfaOps_unary_q.cfg", "DfaOps_unary_t.cfg", "DfaOps_binary_t.cfg", "DfaOps_partial_q.cfg"])
+    ts = tasks(tier, seed) + dfaops_replay.gen_tasks(PID, cfgs, tier, info)
+
+    def extra(res, done):
+        res.notes["model_behaviours_replayed_into_impl"] = info
+
+    return base.standard_check(PID, tier, seed, ts, MODELS[tier], RULE, nontrivial, matchers=MATCHERS, extra=extra,
                                assumptions=["<= 6 states (13 with numbered names)", "languages over {a,b}, words <= 2 (helpers)"])
 
 
